@@ -39,6 +39,7 @@ func (t jsType) BlankConstructor() bool {
 
 // prototype represents a JavaScript prototype to generate.
 type prototype struct {
+	Class       string     `yaml:"class"`
 	Value       string     `yaml:"value"`
 	ObjectClass string     `yaml:"objectClass"`
 	Prototype   string     `yaml:"prototype"`
